@@ -109,7 +109,9 @@ fn special_bits(rng: &mut Rng, ty: L::Ty) -> u64 {
             *rng.pick(&P) as u64
         }
         L::Ty::U32 | L::Ty::I32 => {
-            const P: [u32; 6] = [0, 0xFFFF_FFFF, 0x8000_0000, 0x7FFF_FFFF, 1, 0x0102_0304];
+            // boundary patterns plus the sentinels other Slippi tooling uses for frame numbers
+            // (-123 first frame, -124 "none yet", -1)
+            const P: [u32; 10] = [0, 0xFFFF_FFFF, 0x8000_0000, 0x7FFF_FFFF, 1, 0x0102_0304, 0xFFFF_FF85, 0xFFFF_FF84, 0xFFFF_FF83, 0xFFFF_FFFE];
             *rng.pick(&P) as u64
         }
         L::Ty::U16 => {
@@ -117,7 +119,8 @@ fn special_bits(rng: &mut Rng, ty: L::Ty) -> u64 {
             *rng.pick(&P) as u64
         }
         L::Ty::U8 | L::Ty::I8 => {
-            const P: [u8; 6] = [0, 0xFF, 0x80, 0x7F, 1, 0xFE];
+            // boundaries plus bytes with a meaning elsewhere in the format (14 Ice Climbers, 0x21 "no character", port numbers)
+            const P: [u8; 12] = [0, 0xFF, 0x80, 0x7F, 1, 0xFE, 14, 0x21, 2, 3, 4, 6];
             *rng.pick(&P) as u64
         }
     }
